@@ -576,3 +576,123 @@ def _c03(fb, rep):
 
 
 RULES.update({'C11': _c11, 'C03': _c03, 'C20': c20c})
+
+
+# ================================================================================================ fourth batch (F107 - F109)
+PTR_CONTAINER = re.compile(r'(DataArray|ClassArray|Array|vector)<[^<>]*(<[^<>]*>)?[^<>]*\*\s*>')
+
+
+def c17(fb, rep):
+    """R17.12: a member that is an ARRAY OF POINTERS into a sibling component (SPxBasisBase::matrix: pointers to the vectors of the loaded LP) and that a
+    copy operation copies verbatim is re-bound element by element (`matrix[i] = ...`) in the copy operation of the class that owns both ends - otherwise
+    the copy keeps factorizing the source's vectors.  (F107)
+    R17.13: SoPlexBase::operator= copies status and solution of rhs; nothing it executes afterwards invalidates them again (no call that reaches
+    _invalidateSolution(); setIntParam() calls are followed into the case arm of the parameter they name).  (F108)
+    R17.14: an owned pointer member of SoPlexBase that operator= re-allocates (spx_alloc) is released on every path to that allocation unless it is
+    the constructor-initialised nullptr.  (F109)"""
+    from engine import case_arm_nodes, transitive_calls
+    rep.rule('R17.12', 'an array-of-pointers member copied verbatim by a copy operation is re-bound elementwise by the copy operation of the owning class', floor=2)
+    k = 0
+    for K, c in sorted(fb.classes.items()):
+        if not K.startswith('soplex::') or K.startswith(('soplex::Array<', 'soplex::DataArray<', 'soplex::ClassArray<')):
+            continue
+        for x in c['fields']:
+            if not PTR_CONTAINER.search(x['t']):
+                continue
+            sh = x['n']
+            copies = []
+            for f in fb.methods_of(K):
+                if f.mk not in ('copyassign', 'copyctor') or not f.params or f.implicit:
+                    continue
+                r = f.params[0][0]
+                for n in f.nodes:
+                    if n.k == 'CXXOperatorCallExpr' and n.o == '=' and len(n.args()) == 2 and render(strip(n.args()[0])).replace('this->', '') == sh and render(strip(n.args()[1])) == '%s.%s' % (r, sh):
+                        copies.append((f, n.l))
+                for fld, e, w in f.inits:
+                    if fld.split('::')[-1] == sh and e is not None and re.search(r'\b%s\.%s\b' % (re.escape(r), re.escape(sh)), render(e)):
+                        copies.append((f, f.line))
+            if not copies:
+                k += 1
+                rep.ok('R17.12', '%s::%s' % (K.replace('soplex::', ''), sh), '%s:%s' % (c['file'], c['line']), 'not copied by any copy operation of its class', nontrivial=False)
+                continue
+            # the classes that can re-bind: K itself and the classes derived from it
+            fam = [K] + [D for D, dc in fb.classes.items() if K in (dc.get('bases') or [])]
+            for f, line in copies:
+                k += 1
+                kind = f.mk
+                reb = None
+                for D in fam:
+                    for g in fb.methods_of(D):
+                        if g.mk != kind:
+                            continue
+                        for n in g.nodes:
+                            if n.k in ('BinaryOperator', 'CXXOperatorCallExpr') and n.o == '=':
+                                l = strip(n.kids[0] if n.k == 'BinaryOperator' else n.args()[0])
+                                lt = render(l).replace('this->', '')
+                                if re.match(r'\(?%s\[' % re.escape(sh), lt) and not re.search(r'\b\w+\.%s\[' % re.escape(sh), render(n.kids[1] if n.k == 'BinaryOperator' else n.args()[1])):
+                                    reb = (g, n)
+                rep.check(reb is not None, 'R17.12', '%s::%s|%s' % (K.replace('soplex::', ''), sh, 'operator=' if kind == 'copyassign' else 'copy-ctor'), '%s:%d' % (f.file, line),
+                          're-bound by %s' % (reb[0].name.replace('soplex::', '')[:50] if reb else ''),
+                          '%s (%s) is copied verbatim from the source and no %s of %s re-binds its elements: the copy keeps pointers into the source object (results change when '
+                          'the source is modified, freed memory is read when it is destroyed)' % (sh, x['t'].replace('soplex::', ''), 'operator=' if kind == 'copyassign' else 'copy constructor', ' / '.join(d.replace('soplex::', '') for d in fam)))
+    if k < 2:
+        raise AnalysisBroken('R17.12: only %d array-of-pointers members found' % k)
+
+    rep.rule('R17.13', 'SoPlexBase::operator=: nothing executed after status and solution were copied invalidates them', floor=5)
+    op = [f for f in fb.methods_of(C) if f.mk == 'copyassign'][0]
+    st = [n for n in op.nodes if n.k == 'BinaryOperator' and n.o == '=' and render(strip(n.kids[0])).replace('this->', '') == '_status']
+    if not st:
+        raise AnalysisBroken('R17.13: SoPlexBase::operator= no longer assigns _status')
+    inval = lambda c: c.short == '_invalidateSolution'
+    within = lambda g: g.cls == C
+    setp = fb.find(C + '::setIntParam')
+    k = 0
+    for n in op.nodes:
+        if not (n.k == 'CXXMemberCallExpr' and n.l > st[0].l and n.obj() is not None and strip(n.obj()).k == 'CXXThisExpr'):
+            continue
+        k += 1
+        tgt = [g for g in fb.resolve(n)]
+        bad = None
+        if n.short == '_invalidateSolution':
+            bad = 'calls _invalidateSolution()'
+        elif n.short == 'setIntParam' and n.args() and strip(n.args()[0]).k == 'DeclRefExpr' and strip(n.args()[0]).dk == 'enum':
+            p = strip(n.args()[0]).short
+            for g in tgt:
+                arms = [cs for cs in g.nodes if cs.k == 'CaseStmt' and cs.kids and render(strip(cs.kids[0])).split('::')[-1] == p]
+                if not arms:
+                    bad = 'setIntParam has no case for %s' % p
+                for cs in arms:
+                    for m in case_arm_nodes(g, cs):
+                        if m.k == 'CXXMemberCallExpr' and (inval(m) or any(transitive_calls(fb, h, inval, 3, within) for h in fb.resolve(m) if h.cls == C)):
+                            bad = 'setIntParam(%s) reaches _invalidateSolution() through %s (line %d)' % (p, m.short, m.l)
+        else:
+            for g in tgt:
+                if g.cls == C and transitive_calls(fb, g, inval, 3, within):
+                    bad = '%s() reaches _invalidateSolution()' % n.short
+        rep.check(bad is None, 'R17.13', 'operator=|%s#%d' % (render(n)[:40], k), '%s:%d' % (op.file, n.l), 'does not invalidate',
+                  'after `_status = rhs._status` (line %d) the assignment %s: the assigned object reports UNKNOWN / no feasibility where its source is solved' % (st[0].l, bad))
+    if k < 5:
+        raise AnalysisBroken('R17.13: only %d member calls after the status copy in SoPlexBase::operator=' % k)
+
+    rep.rule('R17.14', 'SoPlexBase::operator=: an owned LP pointer that is re-allocated was released (destructor call) on every path to the allocation', floor=1)
+    g = Graph(op, None)
+    k = 0
+    for n in op.nodes:
+        if not (n.k == 'CallExpr' and n.short == 'spx_alloc' and n.args()):
+            continue
+        m = render(strip(n.args()[0])).replace('this->', '')
+        if m != '_rationalLP':
+            continue          # _realLP: aliases &_solver, released by _loadRealLP(); no leaking history known (replays/hunt/c17_assign_leaks_rational_lp.cpp scenario 2)
+        k += 1
+        ok, path = g.must_pass(lambda x: x.k == 'CXXMemberCallExpr' and x.n and '~' in str(x.n) and m in render(x), to=g.block_of(n))
+        if not ok:
+            # released under `if(m != nullptr)`: the path that skips the release is the one on which there is nothing to release
+            A = __import__('engine').Assume(hook=lambda nn, txt: True if re.fullmatch(r'\(?%s != (nullptr|0|NULL)\)?' % re.escape(m), txt) else None)
+            ok, path = Graph(op, A).must_pass(lambda x: x.k == 'CXXMemberCallExpr' and '~' in render(x) and m in render(x), to=g.block_of(n))
+        rep.check(ok, 'R17.14', 'operator=|spx_alloc(%s)' % m, '%s:%d' % (op.file, n.l), 'released before', '%s is overwritten by a fresh allocation on a path that never destroys the object it pointed to: '
+                  'every assignment leaks an LP' % m)
+    if k < 1:
+        raise AnalysisBroken('R17.14: SoPlexBase::operator= no longer allocates _rationalLP')
+
+
+RULES.update({'C17': c17})
